@@ -56,6 +56,20 @@ Conv(ty, v) == IF IsErr(v) THEN v
                ELSE IF ty = "real" THEN (IF v.t = "log" THEN Err("type") ELSE ToReal(v))
                ELSE (IF v.t = "log" THEN v ELSE Err("type"))
 
+\* Associate names bound to a variable or an array element are aliases:
+\* [t |-> "alias", base |-> name, ix |-> <<>> (the whole entity) or an index tuple (one element)]
+Deref(env, name) == LET v == env[name] IN
+                    IF v.t # "alias" THEN v
+                    ELSE IF v.ix = <<>> THEN env[v.base] ELSE env[v.base].data[v.ix]
+IntLit(v) == [k |-> "int", v |-> v]
+\* an lvalue reference through an alias, rewritten to a reference to the aliased entity
+RealRef(env, ref) ==
+  IF ref.k \notin {"var", "arr"} THEN ref
+  ELSE IF ref.name \notin DOMAIN env \/ env[ref.name].t # "alias" THEN ref
+  ELSE LET al == env[ref.name] IN
+       IF al.ix = <<>> THEN [ref EXCEPT !.name = al.base]
+       ELSE [k |-> "arr", name |-> al.base, c |-> [d \in 1..Len(al.ix) |-> IntLit(al.ix[d])]]
+
 (* ------------------------------------------------------------ expressions *)
 \* pos: positions inside the current array-section context (<<>> in scalar context); the j-th
 \* range subscript of a reference selects element lo + (pos[j]-1)*stride
@@ -99,7 +113,7 @@ EvalE(P, e, env, pos) ==
     [] e.k = "real" -> Q(e.n, e.d)
     [] e.k = "log"  -> L(e.v)
     [] e.k = "var"  -> IF e.name \notin DOMAIN env THEN Err("undeclared")
-                       ELSE LET v == env[e.name] IN
+                       ELSE LET v == Deref(env, e.name) IN
                             IF v.t = "undef" THEN Err("undef")
                             ELSE IF v.t = "arr" THEN
                                  \* whole array in an elemental context: element at pos (lower bound based)
@@ -107,8 +121,8 @@ EvalE(P, e, env, pos) ==
                                   ELSE LET ix == [d \in 1..Len(pos) |-> v.lb[d] + pos[d] - 1] IN
                                        IF InBounds(v, ix) THEN (IF v.data[ix].t = "undef" THEN Err("undef") ELSE v.data[ix]) ELSE Err("bounds"))
                             ELSE v
-    [] e.k = "arr"  -> IF e.name \notin DOMAIN env \/ env[e.name].t # "arr" THEN Err("undeclared")
-                       ELSE LET a == env[e.name]
+    [] e.k = "arr"  -> IF e.name \notin DOMAIN env \/ Deref(env, e.name).t # "arr" THEN Err("undeclared")
+                       ELSE LET a == Deref(env, e.name)
                                 r == SubIdx(P, a, e.c, env, pos, 1, 1)
                             IN IF ~r.ok THEN Err("subscript")
                                ELSE IF ~InBounds(a, r.ix) THEN Err("bounds")
@@ -160,9 +174,10 @@ StoreScalar(S, u, name, ix, v) ==
 
 \* assignment: scalar, element, or array section / whole array (RHS evaluated for every element
 \* from the OLD state before any element is stored)
-Assign(P, u, S, lhs, rhs) ==
-  IF lhs.name \notin DOMAIN S.env THEN Fail(S, "undeclared")
-  ELSE LET tgt == S.env[lhs.name]
+Assign(P, u, S, lhs0, rhs) ==
+  IF lhs0.name \notin DOMAIN S.env THEN Fail(S, "undeclared")
+  ELSE LET lhs == RealRef(S.env, lhs0)
+           tgt == S.env[lhs.name]
            whole == lhs.k = "var" /\ tgt.t = "arr"
            subs == IF lhs.k = "arr" THEN lhs.c ELSE <<>>
            shape == IF whole THEN [d \in 1..Len(tgt.lb) |-> tgt.ub[d] - tgt.lb[d] + 1]
@@ -190,7 +205,7 @@ PrintVals(P, e, env) ==
   THEN Elements(env[e.name])
   ELSE <<EvalE(P, e, env, <<>>)>>
 
-RECURSIVE ExecStmt(_, _, _, _), DoLoop(_, _, _, _, _, _, _), WhileLoop(_, _, _, _, _), IfChain(_, _, _, _, _), SelectCase(_, _, _, _, _, _), PrintItems(_, _, _, _)
+RECURSIVE ExecStmt(_, _, _, _), Associate(_, _, _, _), DoLoop(_, _, _, _, _, _, _), WhileLoop(_, _, _, _, _), IfChain(_, _, _, _, _), SelectCase(_, _, _, _, _, _), PrintItems(_, _, _, _)
 
 PrintItems(P, items, S, i) ==
   IF i > Len(items) \/ S.st = "err" THEN S
@@ -260,8 +275,40 @@ ExecStmt(P, u, s, S) ==
     [] s.s = "exit"   -> [S EXCEPT !.st = "exit"]
     [] s.s = "cycle"  -> [S EXCEPT !.st = "cycle"]
     [] s.s = "return" -> [S EXCEPT !.st = "return"]
-    [] s.s = "nop"    -> S
+    [] s.s \in {"nop", "raw"} -> S      \* "raw": text-only lines without run-time meaning (pragmas, comments)
+    [] s.s = "assoc"  -> Associate(P, u, s, S)
     [] OTHER -> Fail(S, "unsupported-statement")
+
+\* ASSOCIATE (names => selectors).  A selector that is a variable or an array element is associated
+\* with that entity: the name is bound on entry (element subscripts are evaluated once, on entry) and
+\* what the block stores into the name is stored into the entity.  Any other selector is an expression
+\* evaluated on entry.  (The generators never mention a selector's own variable inside the block, so
+\* binding by copy-in / copy-out is indistinguishable from association.)  Names shadow outer entities
+\* of the same name for the duration of the block.
+Associate(P, u, s, S) ==
+  LET n == Len(s.names)
+      tref(i) == RealRef(S.env, s.targets[i])          \* selector, seen through enclosing associations
+      isvar(i) == s.targets[i].k = "var" /\ s.targets[i].name \in DOMAIN S.env /\ tref(i).k = "var"
+      iselem(i) == tref(i).k = "arr" /\ tref(i).name \in DOMAIN S.env /\ S.env[tref(i).name].t = "arr"
+                   /\ \A d \in 1..Len(tref(i).c) : tref(i).c[d].k # "range"
+      elemix(i) == SubIdx(P, S.env[tref(i).name], tref(i).c, S.env, <<>>, 1, 1)
+      val(i) == IF isvar(i) THEN [t |-> "alias", base |-> tref(i).name, ix |-> <<>>]
+                ELSE IF iselem(i) THEN (IF elemix(i).ok /\ InBounds(S.env[tref(i).name], elemix(i).ix)
+                                        THEN [t |-> "alias", base |-> tref(i).name, ix |-> elemix(i).ix] ELSE Err("bounds"))
+                ELSE EvalE(P, s.targets[i], S.env, <<>>)
+      vals == TLCEval([i \in 1..n |-> val(i)])
+      tyof(i) == IF isvar(i) \/ iselem(i) THEN Decl(u, tref(i).name).type
+                 ELSE IF vals[i].t \in {"int", "real", "log"} THEN vals[i].t ELSE "int"
+      idx(nm) == CHOOSE i \in 1..n : s.names[i] = nm
+      names == {s.names[i] : i \in 1..n}
+      u2 == [u EXCEPT !.decls = @ \o [i \in 1..n |-> [name |-> s.names[i], type |-> tyof(i), intent |-> "local", dims |-> <<>>, init |-> None]]]
+      env1 == TLCEval([nm \in DOMAIN S.env \cup names |-> IF nm \in names THEN vals[idx(nm)] ELSE S.env[nm]])
+      bad == {i \in 1..n : IsErr(vals[i])}
+  IN
+  IF bad # {} THEN Fail(S, "associate-selector")
+  ELSE IF names \cap DOMAIN S.env # {} THEN Fail(S, "associate-shadowing-not-modelled")
+  ELSE LET B == ExecBody(P, u2, s.body, [S EXCEPT !.env = env1]) IN
+       IF B.st = "err" THEN B ELSE [B EXCEPT !.env = TLCEval([nm \in DOMAIN S.env |-> B.env[nm]])]
 
 (* ------------------------------------------------------------ procedure call *)
 \* Argument association by copy-in / copy-out.  For programs that respect Fortran's aliasing rules
